@@ -32,7 +32,8 @@ def exn_name(e):
 
 # ---------------------------------------------------------------- deterministic randomness / clock
 class Pins:
-    now = 1_700_000_000
+    now = 1_700_000_000       # the verifier's clock, in whole seconds (what int(time()) must give)
+    frac = 0.625              # ... but time() is a float with a fractional part, like every real clock
     rseed = b'verif'
     ridx = 0
 
@@ -48,7 +49,7 @@ def _token_bytes(n):
 
 
 def pin():
-    F.time = lambda: Pins.now
+    F.time = lambda: Pins.now + Pins.frac
     F.token_bytes = _token_bytes
 
 
@@ -332,6 +333,46 @@ class Watch:
                 except ImplTimeout:
                     continue
         return et is ImplTimeout     # swallow our own exception
+
+
+# ---------------------------------------------------------------- a stack that reports silent drops
+import collections as _collections
+
+
+class WatchDeque(_collections.deque):
+    """Stack.deque is a deque with maxlen: adding to a full one silently discards an item at the other end.  Stack.put
+    checks for room first, so in a correct implementation that never happens; any code that reaches the deque directly and
+    overfills it is recorded here (C07: 'never a silently dropped stack item'; C01: the verdict would be decided by a
+    stack that lost an item)."""
+    drops = []
+
+    def _would_drop(self, k):
+        return self.maxlen is not None and len(self) + k > self.maxlen
+
+    def append(self, x):
+        if self._would_drop(1):
+            WatchDeque.drops.append('append to a full stack (%d items) silently dropped the bottom item' % len(self))
+        super().append(x)
+
+    def appendleft(self, x):
+        if self._would_drop(1):
+            WatchDeque.drops.append('appendleft to a full stack (%d items) silently dropped the top item' % len(self))
+        super().appendleft(x)
+
+    def extend(self, it):
+        it = list(it)
+        if self._would_drop(len(it)):
+            WatchDeque.drops.append('extend by %d on a stack of %d (max %s) silently dropped items' % (len(it), len(self), self.maxlen))
+        super().extend(it)
+
+    def extendleft(self, it):
+        it = list(it)
+        if self._would_drop(len(it)):
+            WatchDeque.drops.append('extendleft by %d on a stack of %d (max %s) silently dropped items' % (len(it), len(self), self.maxlen))
+        super().extendleft(it)
+
+
+C.deque = WatchDeque        # Stack.__init__ looks the name up at call time
 
 
 # ---------------------------------------------------------------- implementation runner
